@@ -128,6 +128,11 @@ def split_inner(sig):
 # --------------------------------------------------------------------------
 # encoder
 
+class SharedFds(list):
+    """An attachment list whose encoder attaches each descriptor once: h values naming an equal descriptor get the same
+    index (the wire format allows several arguments to refer to one attachment)."""
+
+
 class _Enc:
     def __init__(self, offset, little, fds):
         self.base = offset
@@ -150,8 +155,11 @@ class _Enc:
         if c == 'h':
             if self.fds is None:
                 raise RefError('no fd list')
-            self.out += struct.pack(self.e + 'I', len(self.fds))
-            self.fds.append(v)
+            if isinstance(self.fds, SharedFds) and v in self.fds:
+                self.out += struct.pack(self.e + 'I', self.fds.index(v))
+            else:
+                self.out += struct.pack(self.e + 'I', len(self.fds))
+                self.fds.append(v)
         elif c in FIXED:
             lo, hi = INT_RANGE[c]
             if not (isinstance(v, int) and lo <= v <= hi):
@@ -456,14 +464,14 @@ def encode_message(mtype, serial, fields, body_sig='', body=(), little=True,
     return hdr + b'\0' * padn + bodyb
 
 
-def encode_variant(k, mtype, serial, fields, body_sig='', body=(), little=True, flags=0):
+def encode_variant(k, mtype, serial, fields, body_sig='', body=(), little=True, flags=0, fds=None):
     """The same message in one of four spellings a conforming peer may choose (k % 4): 0 canonical (fields by ascending
     code); 1 a header field with a code unknown to this implementation FIRST; 2 fields in descending order with an
     unknown field in the middle; 3 an unknown variant-typed field second, plus flag bit 0x4
     (ALLOW_INTERACTIVE_AUTHORIZATION).  Receivers must ignore unknown fields and flag bits; field order is free."""
     k %= 4
     if k == 0:
-        return encode_message(mtype, serial, fields, body_sig, body, little, flags)
+        return encode_message(mtype, serial, fields, body_sig, body, little, flags, fds=fds)
     n = len(fields) + (1 if body_sig and 8 not in fields else 0) + 1
     if k == 1:
         extra = [(0x20, 's', 'some-extension')]
@@ -476,7 +484,7 @@ def encode_variant(k, mtype, serial, fields, body_sig='', body=(), little=True, 
         extra = [(0x0a, 'v', ['ay', [1, 2]])]
         order = [0, n - 1] + list(range(1, n - 1))
         flags |= 0x4
-    return encode_message(mtype, serial, fields, body_sig, body, little, flags, order, extra)
+    return encode_message(mtype, serial, fields, body_sig, body, little, flags, order, extra, fds=fds)
 
 
 def decode_message(raw, strict=True):
